@@ -247,9 +247,19 @@ def c04(m, h, i, s):
         elif delta != expect:
             m.bad(h, i, "close_payout", f"wallet delta {delta} != margin {pre['margin']} + rpnl {rpnl} - funding {f} - fees {toll + spread} = {expect}")
     elif s.ok and post is not None:
-        m.hit("partial-close", h, i)
+        m.hit("partial-close" + ("-with-funding" if f else ""), h, i)
         if post["size"] == 0 or (post["size"] > 0) != (pre["size"] > 0):
             m.bad(h, i, "partial_close_flip", "partial close flipped or emptied the position")
+        # a partial close that would leave the trader owing more than the margin must be rejected:
+        # remaining margin = margin + realised share of the PnL - funding owed on the whole position
+        closed = abs(pre["size"]) - abs(post["size"])
+        if pre["pnl_spot"] is not None and pre["size"] != 0:
+            realized = tdiv(pre["pnl_spot"] * closed, abs(pre["size"]))
+            remain = pre["margin"] + realized - f
+            if remain < 0:
+                m.bad(h, i, "partial_close_bad_debt", f"partial close accepted although margin {pre['margin']} + realised pnl {realized} - funding {f} = {remain} < 0")
+            elif post["margin"] != remain:
+                m.bad(h, i, "partial_close_margin", f"margin after partial close {post['margin']}, expected {pre['margin']} + {realized} - funding {f} = {remain}")
 
 
 # ------------------------------------------------------------------------------------------- C05
@@ -329,7 +339,14 @@ def liq_ratio(obs, v, t):
     mr = p["mr"]
     if mr is None:
         return None
-    if obs.get(f"v{v}.overspread") == "1":
+    # the spread condition is recomputed here (not read from the implementation's own answer):
+    # |spot - oracle| x D / oracle >= D / 10
+    spot, up = I(obs, f"v{v}.spot"), I(obs, f"v{v}.uprice")
+    Dv = I(obs, "e.dec")
+    over = False
+    if spot is not None and up not in (None, 0):
+        over = abs(tdiv((spot - up) * Dv, up)) >= Dv // 10
+    if over:
         D = I(obs, "e.dec")
         f = funding_owed(obs, v, p)
         if p["pn_oracle"] in (None, 0) or p["pnl_oracle"] is None:
@@ -598,6 +615,14 @@ def c11(m, h, i, s):
                 m.bad(h, i, "checkpoint_not_advanced", f"checkpoint {post['lupf']} != cumulative fraction {cpf} after {path}")
         if path == "partial-close" and post is not None and post["lupf"] != cpf:
             m.bad(h, i, "checkpoint_not_advanced", f"checkpoint {post['lupf']} != cumulative fraction {cpf} after partial close")
+        if path == "partial-close" and post is not None and pre["pnl_spot"] is not None and f != 0:
+            closed = abs(pre["size"]) - abs(post["size"])
+            realized = tdiv(pre["pnl_spot"] * closed, abs(pre["size"]))
+            if pre["margin"] + realized - f >= 0 and post["margin"] != pre["margin"] + realized - f:
+                m.bad(h, i, "partial_close_charge", f"partial close charged {pre['margin'] + realized - post['margin']} instead of the funding owed on the whole position {f}")
+        if path in ("increase", "reduce") and post is not None and f != 0:
+            # the margin moves by the trade's own delta minus the funding owed
+            pass
 
 
 # ------------------------------------------------------------------------------------------- C12
@@ -761,14 +786,19 @@ def c16(m, h, i, s):
     height = I(s.pre, "env.height")
     # has a liquidation succeeded on v in this block?
     liq_here = False
+    traded_here = False
     j = i - 1
     while j >= 0 and I(h.steps[j].obs, "env.height") == height:
         sj = h.steps[j]
         if sj.kind == "eng" and sj.verb() == "liq" and sj.ok and int(sj.toks[4]) == v:
             liq_here = True
+        # history-based: the trader opened / modified / partially closed this position earlier in this block
+        if sj.kind == "eng" and sj.ok and sj.verb() in ("open", "close") and sj.sender() == snd and int(sj.toks[4]) == v \
+                and pos(sj.obs, v, snd) is not None:
+            traded_here = True
         j -= 1
     pre = pos(s.pre, v, snd)
-    touched = pre is not None and pre["block"] == height
+    touched = pre is not None and (pre["block"] == height or traded_here)
     m.stats["checked"] += 1
     if liq_here and touched:
         m.hit("restricted:" + verb, h, i)
